@@ -75,6 +75,29 @@ class RecServer(S.ServerServiceListener):
         self.sim.emit([4, self.iid, s_sub(subscription), addr_id(source)])
 
 
+def _dest(remote):
+    return None if (remote is None or tuple(remote) == MC) else [addr_id(remote)]
+
+
+_HOOKED = False
+
+
+def _install_collector_hook():
+    """SendCollector._handle_timeout records the hand-over in the call history of the simulation its callback belongs to."""
+    global _HOOKED
+    if _HOOKED:
+        return
+    _HOOKED = True
+    orig = S.SendCollector._handle_timeout
+
+    def handle_timeout(self):
+        sim = getattr(self.callback, "_verif_sim", None)
+        if sim is not None:
+            sim.ghost.append([sim.now(), 1, _dest(self.kwargs.get("remote")), [conv.s_entry(e) for e in self.data]])
+        return orig(self)
+    S.SendCollector._handle_timeout = handle_timeout
+
+
 class RecTransport:
     def __init__(self, sim):
         self.sim = sim
@@ -114,6 +137,24 @@ class StackSim:
         for lg in (self.prot.log, self.prot.discovery.log, self.prot.announcer.log, self.prot.subscriber.log, S.LOG):
             lg.disabled = True
         self.prot.transport = RecTransport(self)
+        # call history, compared with the model's ghost history: queue_send calls, collector hand-overs, send_sd calls
+        self.ghost = []
+        _install_collector_hook()
+        orig_send, orig_queue = self.prot.send_sd, self.prot.announcer.queue_send
+
+        def send_sd(entries, remote=None):
+            if entries:
+                self.ghost.append([self.now(), 2, [conv.s_entry(e) for e in entries], _dest(remote)])
+            return orig_send(entries, remote=remote)
+        send_sd._verif_sim = self
+        self.prot.send_sd = send_sd
+
+        def queue_send(entry, remote=None):
+            self.ghost.append([self.now(), 0, conv.s_entry(entry), _dest(remote)])
+            if self.timings.SEND_COLLECTION_TIMEOUT == 0:
+                self.ghost.append([self.now(), 1, _dest(remote), [conv.s_entry(entry)]])   # handed over at once
+            return orig_queue(entry, remote=remote)
+        self.prot.announcer.queue_send = queue_send
         # an exception that escapes a loop callback (e.g. a collector flush that cannot be encoded) is recorded where and when it happens
         self.loop.set_exception_handler(lambda loop, ctx: self.emit([5, conv.err_code(ctx.get("exception")) if ctx.get("exception") else 98]))
         self.clients = {}
@@ -285,7 +326,7 @@ def run_impl(sc):
     sim = StackSim(sc)
     try:
         completed = sim.run()
-        return canon_trace(sim.trace), completed, sim.final()
+        return canon_trace(sim.trace), completed, (sim.final(), list(sim.ghost))
     finally:
         sim.close()
 
@@ -296,9 +337,9 @@ def run_model(ctx, scs):
     res = []
     for o in outs:
         v = sexp.loads(o)
-        if len(v) != 3 or v == [255, 255, 255]:
+        if len(v) != 4:
             raise RuntimeError("model rejected the scenario: " + o[:200])
-        res.append((canon_trace(v[0]), bool(v[1]), v[2]))
+        res.append((canon_trace(v[0]), bool(v[1]), (v[2], v[3])))
     return res
 
 
